@@ -55,6 +55,19 @@ func (o tblOpts) writerOptions(dir string) []sstables.WriterOption {
 		sstables.WriteBufferSizeBytes(o.WBuf)}
 }
 
+// scratchCopy keeps nil nil and empty empty
+func scratchCopy(b []byte) []byte {
+	if b == nil {
+		return nil
+	}
+	return append(make([]byte, 0, len(b)), b...)
+}
+func scribble(b []byte) {
+	for i := range b {
+		b[i] = 0xff
+	}
+}
+
 // writeTable writes kvs through the stream writer; returns the per-call error names
 func writeTable(dir string, o tblOpts, kvs []tblKV) ([]string, error) {
 	w, err := sstables.NewSSTableStreamWriter(o.writerOptions(dir)...)
@@ -66,7 +79,10 @@ func writeTable(dir string, o tblOpts, kvs []tblKV) ([]string, error) {
 	}
 	var errs []string
 	for _, kv := range kvs {
-		e := w.WriteNext(kv.K, kv.val())
+		kb, vb := scratchCopy(kv.K), scratchCopy(kv.val())
+		e := w.WriteNext(kb, vb)
+		scribble(kb) // a streaming caller reuses its buffers
+		scribble(vb)
 		if e != nil {
 			errs = append(errs, "Rejected")
 		} else {
